@@ -2,10 +2,18 @@
 private/shared flavour, for the flags tiny-std actually passes."""
 from ..engine.fold import fold
 from ..engine.cfg import is_raw_syscall
-from ..engine.prov import show
+from ..engine.prov import show, strip_casts
 
 FUTEX_PRIVATE_FLAG = 128
 FUTEX_CMD_MASK = 127
+
+
+def nr_name(e):
+    """name of the sc::platform::nr constant an expression is (the number differs per architecture)."""
+    e = strip_casts(e)
+    if isinstance(e, tuple) and e[0] == "const" and e[2] and "::nr::" in e[2]:
+        return e[2].rsplit("::", 1)[1]
+    return None
 
 
 def futex_syscall_ops(prog, fnpath):
@@ -14,12 +22,9 @@ def futex_syscall_ops(prog, fnpath):
     out = []
     if ctx is None:
         return out
-    nr = prog.const("sc::platform::nr::FUTEX")
-    if nr is None:
-        return out
     for bb, t in ctx.cfg.calls(lambda t: is_raw_syscall(t.get("callee"))):
         args = ctx.args(bb)
-        if args and fold(args[0]) == nr:
+        if args and nr_name(args[0]) == "FUTEX":
             out.append((ctx, bb, args[2] if len(args) > 2 else None))
     return out
 
